@@ -879,9 +879,28 @@ func TestVerifC02Batch(t *testing.T) {
 		}(i)
 	}
 	wg.Wait()
+	// at most two panic reports: those of the shortest scripts
+	nPanic, panicLimit := 0, 1<<30
+	{
+		var lens []int
+		for i := range cases {
+			if len(results[i].obs.Panics) > 0 {
+				lens = append(lens, len(cases[i].Steps))
+			}
+		}
+		sort.Ints(lens)
+		if len(lens) > 2 {
+			panicLimit = lens[1]
+		}
+	}
 	for i, c := range cases {
 		obs := results[i].obs
+		if len(obs.Panics) > 0 && (len(c.Steps) > panicLimit || nPanic >= 2) {
+			out.count("panic")
+			continue
+		}
 		if len(obs.Panics) > 0 {
+			nPanic++
 			// cannot go through Coq: the code under test panicked while this case ran
 			b, _ := json.Marshal(map[string]interface{}{"signature": "panic-in-code-under-test", "detail": obs.Panics,
 				"harness": "TestVerifC02Batch", "case": map[string]interface{}{"input": c},
